@@ -36,7 +36,7 @@ ASSUMPTIONS = [
     "tolerance 1e-10 on sums, 1e-12 on transposes",
 ]
 PROBES = ["mortar_nonmatching", "mortar_one_side_only", "mortar_perturbed_nodes", "secondary_refined", "secondary_copy", "primary_refined", "primary_coarser",
-          "primary_after_nonmatching_mortar", "secondary_after_nonmatching_mortar", "mortar_after_primary", "three_kinds_in_one_run", "immersed_tip", "ge_4_replacements", "mortar_sides_given_in_other_order", "mortar_nonmatching_3d", "secondary_refined_3d", "grid_1d_non_monotone_numbering", "observation_sparse", "observation_end"]
+          "primary_after_nonmatching_mortar", "secondary_after_nonmatching_mortar", "mortar_after_primary", "three_kinds_in_one_run", "immersed_tip", "ge_4_replacements", "mortar_sides_given_in_other_order", "mortar_nonmatching_3d", "secondary_refined_3d", "grid_1d_non_monotone_numbering", "observation_sparse", "observation_end", "both_neighbours_in_one_call", "rejected_mortar_replacement"]
 
 TOL = 1e-9
 
@@ -269,7 +269,57 @@ def run_history_c26(ch, tr: Trace) -> None:
         tr.op("replace_primary", "ok", nx, ny)
         after("primary", f"replacing the 2-d grid by cart_grid([{nx},{ny}])")
 
-    ops = [Op("replace_mortar", 4, op_mortar, core=True), Op("replace_secondary", 2, op_secondary), Op("replace_primary", 3, op_primary)]
+    def op_both_neighbours():
+        """One call replacing both neighbours of the interface (the order of the map entries is the caller's)."""
+        hi, lo = mdg.interface_to_subdomain_pair(intf)
+        nx = ch.choice([2, 4, 6]) if not full else ch.rng(2, 6)
+        ny = ch.choice([2, 4])
+        hi_new = pp.meshing.cart_grid(fr, [nx, ny], physdims=[2, 2]).subdomains(dim=2)[0]
+        if state["secondary_replaced"]:
+            lo_new = lo.copy()
+            desc = "copy"
+        else:
+            n = ch.rng(2, 8)
+            lo_new = pp.refinement.remesh_1d(lo, n)
+            state["secondary_replaced"] = True
+            desc = f"remesh({n})"
+        entries = [(hi, hi_new), (lo, lo_new)]
+        if ch.flag():
+            entries.reverse()
+        guarded("both-neighbours replacement", lambda: mdg.replace_subdomains_and_interfaces(sd_map=dict(entries)))
+        state["primary_replaced"] = True
+        tr.probe("both_neighbours_in_one_call")
+        tr.op("replace_both", "ok", [e[0].dim for e in entries], nx, ny, desc)
+        after("both", f"replacing both neighbours in one call (order {[e[0].dim for e in entries]}; 2-d by cart_grid([{nx},{ny}]), 1-d by {desc})")
+
+    def op_rejected_mortar():
+        """A mortar replacement the API documents as raising (a side grid of the wrong dimension), given *after* a valid
+        side in the caller's dict: the call must fail and leave the interface as it was."""
+        sides = list(intf.side_grids.items())
+        if len(sides) < 2:
+            return
+        chosen = ch.shuffle(sides)
+        good, _ = new_side_grid(ch, chosen[0][1], tr)
+        bad = pp.CartGrid([2, 2]) if ch.flag() else pp.PointGrid(np.zeros(3))
+        bad.compute_geometry()
+        new = {chosen[0][0]: good, chosen[1][0]: bad}
+        n_before = {s: g.num_cells for s, g in intf.side_grids.items()}
+        try:
+            mdg.replace_subdomains_and_interfaces(interface_map={intf: new})
+        except ValueError:
+            tr.probe("rejected_mortar_replacement")
+            tr.op("replace_mortar", "rejected", bad.dim, changing=False)
+            if {s: g.num_cells for s, g in intf.side_grids.items()} != n_before:
+                raise Violation("rejected_replacement_leaves_interface_unchanged", f"the rejected mortar replacement (second side of dimension {bad.dim}) changed the side grids: cells per side {n_before} -> { {s: g.num_cells for s, g in intf.side_grids.items()} }")
+            try:
+                check_interface(mdg, intf, frac_len, f"a rejected mortar replacement (second side of dimension {bad.dim})", tr)
+            except Violation as v:
+                raise Violation(v.inv, v.msg, "after_rejected_mortar_replacement")
+            return
+        raise Violation("invalid_call_rejected", f"a mortar replacement with a side grid of dimension {bad.dim} for a 1-d interface was accepted")
+
+    ops = [Op("replace_mortar", 4, op_mortar, core=True), Op("replace_secondary", 2, op_secondary), Op("replace_primary", 3, op_primary),
+           Op("replace_both_neighbours", 2, op_both_neighbours), Op("rejected_mortar", 1, op_rejected_mortar)]
     run_history(ch, tr, ops, 2, 7)
     check_interface(mdg, intf, frac_len, last_where[0] + " (checked at the end of the history)", tr)
     tr.emit("end", state["n"])
